@@ -202,6 +202,9 @@ pub struct ArcTweak {
     /// (record index, k): the name cell holds a DATA POINTER instead of a string — to the start of
     /// the data (k = 0), to the record itself (1), to the end of the data region (2)
     pub nameless_pointer: Option<(usize, u8)>,
+    /// the INDEX column of the records (the layout does not constrain it): 0 = position of the
+    /// file, 1 = sparse (3·i + 2), 2 = counting down from 0xFFFF_FFFF, 3 = the same value in every record
+    pub index_style: u8,
     /// (record index, new size field)
     pub size_override: Option<(usize, u32)>,
     /// (record index, new offset field)
@@ -313,7 +316,13 @@ pub fn build_arc(files: &[(String, Vec<u8>)], l: &ArcLayout, tw: &ArcTweak) -> A
                 off = o;
             }
         }
-        data[at + 4..at + 8].copy_from_slice(&(fi as u32).to_le_bytes());
+        let index_field: u32 = match tw.index_style {
+            0 => fi as u32,
+            1 => 3 * fi as u32 + 2,
+            2 => 0xFFFF_FFFF - fi as u32,
+            _ => 7,
+        };
+        data[at + 4..at + 8].copy_from_slice(&index_field.to_le_bytes());
         data[at + 8..at + 12].copy_from_slice(&size.to_le_bytes());
         data[at + 12..at + 16].copy_from_slice(&off.to_le_bytes());
     }
